@@ -137,6 +137,33 @@ CHECKS["C05"] = dict(
          "counted",
     design_ref="DESIGN.md section 2, C05")
 
+CHECKS["C17"] = dict(
+    technique="runtime monitoring: metamorphic twin runs of the real library "
+              "on related scenario pairs; offline comparison of applied "
+              "S-parameters",
+    text="Pairs of calibrations related by one of eight transformations "
+         "(entry point, full/abbreviated matrix, order, a/b scaling, "
+         "unrelated objects, frequencies together vs separately, E12 vs "
+         "UE14, port renumbering) must correct the same device measurement "
+         "identically within 1e-12(1+kappa); noisy over-determined data are "
+         "used where the transformation preserves the least-squares problem.",
+    note="trusted: scenario generator and identifiability estimate; exact "
+         "data for the two transformations the property restricts to "
+         "consistent data",
+    design_ref="DESIGN.md section 2, C17")
+CHECKS["C20"] = dict(
+    technique="runtime monitoring: add-one-standard/solve histories judged "
+              "against an independent identifiability classification (numpy "
+              "SVD of the documented equations)",
+    text="Standards of a sufficient pool are added in random order with a "
+         "solve after every addition; under-determined prefixes must fail "
+         "with -1/EDOM and one MATH message, the first determining prefix "
+         "and all later ones must solve and correct an independent device, "
+         "however many failed attempts preceded.",
+    note="grey prefixes (enough equations but not determining, or kappa>1e5) "
+         "are not asserted, as the property says",
+    design_ref="DESIGN.md section 2, C20")
+
 NOT_YET = {}
 
 
